@@ -33,10 +33,14 @@ def runMonitor (pid : String) (c : MonCtx) (ls : List Label) : Option (Option Na
       | none => ff (monC03q c) ls)
   | "C04" => some (match ff (monC04 c) ls with
       | some k => some k
-      | none => ff (monC04q c) ls)
+      | none => match ff (monC04q c) ls with
+        | some k => some k
+        | none => ff monWf01 ls)     -- hypothesis of `C04q_holds`: message numbers and operation ids are fresh
   | "C05" => some (match ff (monC05 c) ls with
       | some k => some k
-      | none => ff (monC05q c) ls)
+      | none => match ff (monC05q c) ls with
+        | some k => some k
+        | none => ff (monC02wf c) ls)    -- hypothesis of `C05q_holds`: operation ids are fresh
   | "C06" => some (match ff (monC06 c) ls with
       | some k => some k
       | none => (match ff (monC06t c) ls with
